@@ -318,7 +318,9 @@ def oracle_c05(kind, n, c, label, op, modes, before, after, ref_loss=None):
             else:
                 # what may leak into the spectators is the norm that TRUNCATION removes - the loss of the truncated-operator
                 # reference for this very transition - not whatever norm the implementation happens to lose
-                slack = 1e-10 + (max(0.0, tb - ta) if ref_loss is None else max(0.0, ref_loss) + 1e-9)
+                # (MZgate.H on Fock realises neither truncated reading of the reference - recorded C01 finding - so for the MZ
+                # family the implementation's own loss is the only available measure)
+                slack = 1e-10 + (max(0.0, tb - ta) if (ref_loss is None or label.startswith("MZ")) else max(0.0, ref_loss) + 1e-9)
                 d = _maxabs(ra - rb)
                 if d > slack:
                     out.append(("spectator", f"marginal of modes {rest} changed by {d:.3g} (allowed by truncation loss: {slack:.3g})"))
@@ -434,7 +436,9 @@ def oracle_c07(kind, n, c, label, op, modes, before, after, ref_before, ref_afte
             out.append(("pure-flag", "state flagged pure but Tr rho^2 != (Tr rho)^2"))
         # trace is lost only through truncation: exactly what the truncated-operator reference loses
         loss_impl, loss_ref = tb - ta, ref_before.trace() - ref_after.trace()
-        if abs(loss_impl - loss_ref) > 1e-9:
+        # (MZgate.H on Fock realises another - still unitary - operator than the reference: recorded C01 finding; its own
+        # truncation loss is not the reference's, so the comparison is not made for it)
+        if abs(loss_impl - loss_ref) > 1e-9 and not (label.startswith("MZ") and label.endswith(".H")):
             out.append(("trace-loss", f"trace changed by {-loss_impl:.3g}, truncation accounts for {-loss_ref:.3g}"))
         eps = max(0.0, loss_impl)
         fa, fb = fr.FState(n, c, rho), fr.FState(n, c, before.rho)
@@ -617,6 +621,8 @@ def explore(ctx, prop, configs):
 
 
 def replay_case(prop, case):
+    if case.get("register"):
+        return replay_register(prop, case)
     kind, n, c = case["kind"], case["n"], case["c"]
     hist = tuple((l, tuple(m)) for l, m in case["hist"])
     lab, modes = case["event"][0], tuple(case["event"][1])
@@ -641,3 +647,133 @@ def replay_case(prop, case):
         bad = oracle_c07(kind, n, c, lab, op, modes, obs0, obs, ref0, ref)
     arr = "desc" if (len(modes) == 2 and modes[0] > modes[1]) else "asc"
     return [(f"{prop}|{what}|{cls_tag(lab)}|{kind}" + (f"|{arr}" if len(modes) == 2 else ""), msg) for what, msg in bad]
+
+# ----------------------------------------------------------------------------- operations after the register changed
+# A mode keeps its index for life: after Del / New every operation must still reach the mode it names, through whatever
+# renumbering the simulator keeps internally.  Base states with three distinguishable, correlated modes; every sequence of
+# <= 2 register events; then EVERY event of the alphabet on every tuple of the surviving indices.
+REG_BASES = {
+    "gaussian": [
+        (("Sq(.25,.4)", (0,)), ("Coh(.3,.5)", (1,)), ("Th(.3)", (2,)), ("BS(.5,.3)", (0, 1)), ("S2(.2,.5)", (1, 2))),
+        (("Coh(.3,.5)", (0,)), ("Sq(.25,.4)", (2,)), ("BS(.5,.3)", (2, 0)), ("D(.3,.4)", (1,)), ("BS(.5,.3)", (1, 2))),
+    ],
+    "fock": [
+        (("Fock(1)", (0,)), ("Coh(.3,.5)", (1,)), ("BS(.5,.3)", (0, 1)), ("Sq(.25,.4)", (2,)), ("BS(.5,.3)", (1, 2))),
+        (("Coh(.3,.5)", (0,)), ("Th(.3)", (2,)), ("BS(.5,.3)", (2, 0)), ("D(.3,.4)", (1,)), ("S2(.2,.5)", (1, 2))),
+    ],
+}
+REG_BASES["bosonic"] = REG_BASES["gaussian"]
+REG_EVENTS = [(("Del", 0),), (("Del", 1),), (("Del", 2),), (("New",),), (("Del", 0), ("New",)), (("Del", 1), ("Del", 0)), (("New",), ("Del", 1)), (("Del", 0), ("Del", 2))]
+
+
+def _ref_register(ref, kind, c, ext, ev):
+    """reference side of a register event; ext = external indices of the active modes in position order"""
+    fock = family(kind) == "fock"
+    n = len(ext)
+    if ev[0] == "Del":
+        pos = ext.index(ev[1])
+        rest = [k for k in range(n) if k != pos]
+        if fock:
+            new = fr.FState(n - 1, c, ref.reduced(rest))
+        else:
+            mu, V = ref.reduced(rest)
+            new = ph.GState(n - 1, mu, V)
+        return new, [e for e in ext if e != ev[1]]
+    if fock:
+        vac = np.zeros((c, c))
+        vac[0, 0] = 1.0
+        new = fr.FState(n + 1, c, np.kron(ref.rho, vac))
+    else:
+        new = ph.GState(n + 1)
+        ix = ph.idx(list(range(n)), n + 1)
+        new.mu[ix] = ref.mu
+        new.V[np.ix_(ix, ix)] = ref.V
+    return new, ext + [max(ext + [ev[2]]) + 1]
+
+
+def expand_register(task):
+    prop, kind, c, base, revs = task
+    res = Res()
+    n = 3
+    fam = family(kind)
+    case0 = {"register": True, "kind": kind, "n": n, "c": c, "hist": [[l, list(m)] for l, m in base], "reg_events": [list(e) for e in revs]}
+    b0, ref0 = rebuild(kind, n, c, base)
+    ext, top = [0, 1, 2], 2
+    try:
+        with warnings.catch_warnings():
+            warnings.simplefilter("ignore")
+            for ev in revs:
+                if ev[0] == "Del":
+                    b0.del_mode([ev[1]])
+                    ref0, ext = _ref_register(ref0, kind, c, ext, ev)
+                else:
+                    b0.add_mode(1)
+                    ref0, ext = _ref_register(ref0, kind, c, ext, ("New", None, top))
+                    top += 1
+            k = len(ext)
+            obs0 = Obs(b0, kind, k, c)
+    except Exception as e:  # noqa: BLE001
+        res.violation(f"{prop}|register-raises|{kind}", f"register events {revs} after {base} raised {type(e).__name__}: {e}", dict(case0, event=None))
+        return res
+    tagr = "+".join(e[0] for e in revs)
+    res.n += 1
+    if oracle_c01(kind, k, c, ref0, obs0):
+        if prop == "C01":
+            res.violation(f"C01|register|{tagr}|{kind}", f"after register events {revs} on {[l + str(list(m)) for l, m in base]} the state differs from the reference ({oracle_c01(kind, k, c, ref0, obs0)[0][1]})", dict(case0, event=None))
+        return res
+    for lab, pos in alphabet(kind, k):
+        res.n += 1
+        res.nt += 1
+        res.stats[f"register_transitions:{kind}"] += 1
+        modes = tuple(ext[q] for q in pos)
+        case = dict(case0, event=[lab, list(modes)])
+        op = make_op(lab, c)
+        b = copy.deepcopy(b0)
+        try:
+            apply_impl(b, kind, op, modes)
+            obs = Obs(b, kind, k, c)
+        except Exception as e:  # noqa: BLE001
+            res.violation(f"{prop}|raises|{cls_tag(lab)}|{kind}|after-{tagr}", f"{lab} on modes {list(modes)} after register events {revs} raised {type(e).__name__}: {e}", case)
+            continue
+        ref = apply_ref(ref0, kind, make_op(lab, c), pos, obs, k, c)
+        if prop == "C01":
+            bad = oracle_c01(kind, k, c, ref, obs)
+        elif prop == "C05":
+            bad = oracle_c05(kind, k, c, lab, op, pos, obs0, obs, (ref0.trace() - ref.trace()) if fam == "fock" else None)
+        else:
+            bad = oracle_c07(kind, k, c, lab, op, pos, obs0, obs, ref0, ref)
+        for what, msg in bad:
+            arr = ("|desc" if pos[0] > pos[1] else "|asc") if len(pos) == 2 else ""
+            # the MZ family keeps the signature of the main search (its Fock dagger is a recorded finding, whatever the history)
+            sig = f"{prop}|{what}|{cls_tag(lab)}|{kind}{arr}" + ("" if lab.startswith("MZ") else f"|after-{tagr}")
+            res.violation(sig, f"{lab} on modes {list(modes)} (active modes {ext}) after register events {revs} on {[l + str(list(m)) for l, m in base]} ({kind}, c={c}): {msg}", case)
+    res.sample({"register_events": [list(e) for e in revs], "base": [l + str(list(m)) for l, m in base], "simulator": kind}, cap=1)
+    return res
+
+
+def explore_register(ctx, prop, quick):
+    tasks = []
+    for kind in ("gaussian", "bosonic", "fock_pure", "fock_mixed"):
+        for base in REG_BASES[family(kind)]:
+            if kind == "fock_pure" and any(l.startswith("Th") for l, _ in base):
+                continue
+            for revs in REG_EVENTS if not quick else REG_EVENTS[:6]:
+                tasks.append((prop, kind, 5, base, revs))
+    n0 = ctx.n
+    for r in ctx.pmap(expand_register, tasks):
+        ctx.add(r)
+        if ctx.time_left() < 0:
+            ctx.close()
+            ctx.cap_hit("time budget hit in the register-history part")
+            break
+    ctx.cov["register_history_transitions"] = ctx.n - n0
+    ctx.cov["transitions"] = ctx.n
+    ctx.cov["traces_validated_against_impl"] = ctx.n
+    ctx.cov["evaluations"] = ctx.n
+
+
+def replay_register(prop, case):
+    base = tuple((l, tuple(m)) for l, m in case["hist"])
+    revs = tuple(tuple(e) for e in case["reg_events"])
+    r = expand_register((prop, case["kind"], case["c"], base, revs))
+    return [(s, w) for s, w, c in r.viol if c.get("event") == case.get("event")]
